@@ -21,7 +21,7 @@ ASSUMPTIONS = [
 
 
 def gen(rng, tier, no, wide=False):
-    case = CP.gen_cp_case(rng)
+    case = CP.gen_cp_case(rng, **({"annotation_rate": 0.3} if rng.random() < 0.3 else {}))
     if rng.random() < 0.08:
         # more than a thousand events ahead of the interesting ones in the file (the archive holds the frame as text;
         # whatever is inferred from its beginning must hold for its end)
